@@ -186,7 +186,8 @@ class TheoryOracle(walkers.DagWalker):
     @walkers.handles(op.BOOL_OPERATORS)
     @walkers.handles(op.BV_OPERATORS)
     @walkers.handles(op.STR_OPERATORS -\
-                     set([op.STR_LENGTH, op.STR_INDEXOF, op.STR_TO_INT]))
+                     set([op.STR_LENGTH, op.STR_INDEXOF, op.STR_TO_INT,
+                          op.INT_TO_STR]))
     @walkers.handles(op.ITE, op.ARRAY_SELECT, op.ARRAY_STORE, op.MINUS)
     def walk_combine(self, formula: FNode, args: List[Theory], **kwargs) -> Theory:
         """Combines the current theory value of the children"""
@@ -291,6 +292,7 @@ class TheoryOracle(walkers.DagWalker):
         assert not theory_out.integer_difference
         return theory_out
 
+    @walkers.handles(op.INT_TO_STR)
     def walk_strings(self, formula: FNode, args: List[Theory], **kwargs) -> Theory:
         """Extends the Theory with Strings."""
         #pylint: disable=unused-argument
